@@ -24,26 +24,24 @@ def vec_zero(v, tol=None):
 @harness('C19', 'refract/unit-and-snell', fuc=['prysm.x.raytracing.spencer_and_murty.refract', 'prysm.x.raytracing.spencer_and_murty._multi_dot'])
 def refract_snell():
     """for a unit incident direction S and a surface normal r of ANY length (as Surface.sag_normal returns it)
-    below the critical angle: |S'| = 1, S' - mu S is parallel to r (plane of incidence), n|S x r^| = n'|S' x r^|
+    below the critical angle, heading with OR against the normal (a ray that meets the surface after a mirror travels toward -z
+    while the normal points to +z): |S'| = 1, S' - mu S is parallel to r (plane of incidence), n|S x r^| = n'|S' x r^|
     (Snell, squared form) and S' stays on the side of the surface S was heading to."""
     N = Int('N', 1)
     S, R = Array('S', (N, 3)), Array('R', (N, 3))
     n, npr = Real('n', 1), Real('nprime', 1)
     k = idx(N, 'k')
+    if MODE != 'symbolic':
+        S[:] = S / ((S * S).sum(axis=1) ** 0.5)[:, None]          # concrete runs: unit direction cosines, either sense
     s, r = row(S, k), row(R, k)
     rr = dot(r, r)
     assume(approx(dot(s, s), 1, 1e-12))
     assume(rr > 0)
     mu = n / npr
-    if MODE != 'symbolic':
-        S[:] = S / ((S * S).sum(axis=1) ** 0.5)[:, None]
-        S[:] = S * (((S * R).sum(axis=1) > 0)[:, None] * 2 - 1)      # flip rays heading against the normal
-        s, r = row(S, k), row(R, k)
-        rr = dot(r, r)
     w = sqrt(rr)
     rhat = tuple(c / w for c in r)
     cosI = rhat[0] * s[0] + rhat[1] * s[1] + rhat[2] * s[2]      # cosine of the incidence angle (unit normal)
-    assume(cosI > 0)
+    assume(cosI != 0)                                              # not grazing
     assume(1 - mu * mu * (1 - cosI * cosI) > 0)                   # below the critical angle
     out = call(SM + 'refract', n, npr, S, R)
     check('shape', shape_is(out, N, 3))
@@ -54,8 +52,9 @@ def refract_snell():
     cs, csp = cross(s, r), cross(sp, r)
     check('snell', approx(n * n * dot(cs, cs), npr * npr * dot(csp, csp), 1e-9))
     q = sqrt(1 - mu * mu * (1 - cosI * cosI))
-    check('normal-component', approx(dot(sp, r), q * w, 1e-9))      # = cos(I') |r| > 0
-    check('same-side', dot(sp, r) > 0)
+    want = q * w if cosI > 0 else -q * w          # (forks the path on the sense of the ray)
+    check('normal-component', approx(dot(sp, r), want, 1e-9))      # = +-cos(I') |r|, the sign of cos(I)
+    check('same-side', dot(sp, r) * cosI > 0)
 
 
 @harness('C19', 'reflect/mirror', fuc=['prysm.x.raytracing.spencer_and_murty.reflect'])
@@ -154,17 +153,15 @@ def plane_normal():
 
 @harness('C19', 'Surface.off_axis_conic/sag-and-normal', variants=['dx', 'dy'],
          fuc=['prysm.x.raytracing.surfaces.Surface.off_axis_conic', 'prysm.x.raytracing.surfaces.off_axis_conic_sag',
-              'prysm.x.raytracing.surfaces.off_axis_conic_der', 'prysm.x.raytracing.surfaces.surface_normal_from_cylindrical_derivatives'])
+              'prysm.coordinates.cart_to_polar'])
 def oac_normal(which):
     """an off-axis conic is the parent conic evaluated at (x+dx, y+dy): z on the parent's quadric and the normal is
-    the parent's gradient there.  (The local origin r = 0 of an off-axis segment is not an axis of symmetry and
-    is excluded: the cylindrical-derivative conversion divides by r.)"""
+    the parent's gradient there, at every point of the segment including its own origin r = 0 (where the chief ray lands)."""
     N = Int('N', 1)
     x, y = Array('x', (N,)), Array('y', (N,))
     c, k, s = Real('c'), Real('kappa'), Real('s', nonzero=True)
     i = idx(N, 'i')
     xi, yi = elem(x, i), elem(y, i)
-    assume(xi * xi + yi * yi > 0)
     X, Y = (xi + s, yi) if which == 'dx' else (xi, yi + s)
     A = X * X + Y * Y
     assume(1 - (1 + k) * c * c * A > 0)
@@ -187,12 +184,15 @@ def oac_normal(which):
     phi = sqrt(1 - (1 + k) * (c * c) * agg)
     check('den-is-phi', approx(den, phi, 1e-9))
     check('vertex-branch', den > 0)
-    check('normal-x', approx(-elem(nrm, i, 0) * den, c * X, 1e-7))
-    check('normal-y', approx(-elem(nrm, i, 1) * den, c * Y, 1e-7))
+    # the parent's gradient at (X, Y):  grad z = c (X, Y) / sqrt(1 - (1+k) c^2 (X^2 + Y^2))
+    phiA = sqrt(1 - (1 + k) * (c * c) * A)
+    check('normal-x', approx(-elem(nrm, i, 0) * phiA, c * X, 1e-7))
+    check('normal-y', approx(-elem(nrm, i, 1) * phiA, c * Y, 1e-7))
+    check('normal-z', approx(elem(nrm, i, 2), 1, 1e-12))
 
 
 @harness('C19', 'bounded/raytrace-on-surface-and-snell', kind='bounded',
-         variants=['conic-refract', 'conic-reflect', 'plane-refract', 'tilted-sphere-refract', 'two-surface'],
+         variants=['conic-refract', 'conic-reflect', 'plane-refract', 'tilted-sphere-refract', 'two-surface', 'mixed-frames', 'q-type-surface'],
          fuc=['prysm.x.raytracing.spencer_and_murty.raytrace', 'prysm.x.raytracing.spencer_and_murty.intersect',
               'prysm.x.raytracing.spencer_and_murty.newton_raphson_solve_s'])
 def bounded_raytrace(kind):
@@ -217,6 +217,33 @@ def bounded_raytrace(kind):
     elif kind == 'tilted-sphere-refract':
         tilt = (0.0, float(rng.uniform(-5, 5)), float(rng.uniform(-5, 5)))
         surfs = [Srf.sphere(c, 'refr', [0.5, -0.3, 10.0], nfun, R=tilt)]
+    elif kind == 'q-type-surface':
+        # a 2D-Q freeform on a (possibly off-axis) conic base, assembled the way the library's own tests do: Q2d_and_der for sag and
+        # polar slopes, surface_normal_from_cylindrical_derivatives for the Cartesian ones
+        Q2d, cyl = get(SF + 'Q2d_and_der'), get(SF + 'surface_normal_from_cylindrical_derivatives')
+        c2p = get('prysm.coordinates.cart_to_polar')
+        cm0 = list(rng.standard_normal(int(rng.integers(1, 3))) * 1e-3)
+        ams = [list(rng.standard_normal(2) * 1e-3) for _ in range(int(rng.integers(0, 3)))]
+        bms = [list(rng.standard_normal(2) * 1e-3) for _ in ams]
+        off = {} if rng.random() < 0.4 else (dict(dx=float(rng.uniform(5, 20))) if rng.random() < 0.5 else dict(dy=float(rng.uniform(5, 20))))
+        kq = float(rng.choice([-1.0, 0.0, kap]))
+
+        def FFp(x, y):
+            x2, y2 = np.atleast_2d(x), np.atleast_2d(y)          # 2-D point sets (1-D x, y would be read as grid axes)
+            z, zr, zt = Q2d(cm0, ams, bms, x2, y2, 10.0, c, kq, **off)
+            r, t = c2p(x2, y2)
+            fx, fy = cyl(zr, zt, r, t)
+            return z.reshape(np.shape(x)), fx.reshape(np.shape(x)), fy.reshape(np.shape(x))
+        surfs = [Srf(typ='refl' if rng.random() < 0.5 else 'refr', P=12.0, n=nfun, FFp=FFp)]
+        tilt = 'no-axial-ray'
+    elif kind == 'mixed-frames':
+        # a prescription that mixes tilted / decentred surfaces with plain ones in every order (tilted window ahead of a lens and a
+        # mirror, a tilted element in the middle, ...): each surface's own frame, and only its own, applies at that surface
+        def frame():
+            return (float(rng.uniform(-4, 4)), float(rng.uniform(-4, 4)), float(rng.uniform(-4, 4))) if rng.random() < 0.5 else None
+        surfs = [Srf.plane('refr', [0.0, 0.0, 5.0], n=nfun, R=frame()),
+                 Srf.conic(c, kap, 'refr', [0.2, -0.1, 10.0], n=lambda w: 1.0, R=frame()),
+                 Srf.sphere(-c, 'refl', [0.0, 0.0, 16.0], None, R=frame())]
     else:
         surfs = [Srf.conic(c, kap, 'refr', 10.0, n=nfun), Srf.sphere(-c, 'refr', 14.0, lambda w: 1.0)]
     nr = 9
@@ -231,6 +258,8 @@ def bounded_raytrace(kind):
     P, S = vary_layout(rng, P), vary_layout(rng, S)      # ray bundles in any memory layout
     if tilt is not None:
         P[0] = 0.0     # axial ray of the untilted frame is just another skew ray here
+    if tilt == 'no-axial-ray':
+        P[0, :2] = (0.7, -0.4)     # the polar-to-Cartesian conversion of a user-assembled surface is singular at r = 0 (documented)
     if rng.random() < 0.25:
         # a collimated launch written the way the docstring does, S = [0, 0, 1] as integers
         S = np.zeros((nr, 3), dtype=int)
@@ -245,6 +274,12 @@ def bounded_raytrace(kind):
         _, Sout = lcl(Ph[j + 1], srf.P, Sh[j + 1], srf.R)
         z, nrm = srf.sag_normal(Pl[:, 0], Pl[:, 1])
         check('on-surface-%d' % j, bool(np.allclose(Pl[:, 2], z, atol=1e-8)))
+        # "the true surface normal": the reported normal is (-dz/dx, -dz/dy, 1) of the reported sag (central differences)
+        hh = 1e-5
+        gx = (srf.sag_normal(Pl[:, 0] + hh, Pl[:, 1])[0] - srf.sag_normal(Pl[:, 0] - hh, Pl[:, 1])[0]) / (2 * hh)
+        gy = (srf.sag_normal(Pl[:, 0], Pl[:, 1] + hh)[0] - srf.sag_normal(Pl[:, 0], Pl[:, 1] - hh)[0]) / (2 * hh)
+        check('normal-is-the-gradient-of-the-sag-%d' % j, bool(np.allclose(-nrm[:, 0], gx, rtol=1e-5, atol=1e-7) and np.allclose(-nrm[:, 1], gy, rtol=1e-5, atol=1e-7)
+                                                               and np.allclose(nrm[:, 2], 1)))
         nh = nrm / np.sqrt((nrm * nrm).sum(axis=1))[:, None]
         if srf.typ == -1:
             check('mirror-%d' % j, bool(np.allclose((Sout * nh).sum(1), -(Sin * nh).sum(1), atol=1e-9)
